@@ -74,6 +74,10 @@ func genPhases() {
 			if s == "context.WithCancel(context.Background())" {
 				return "ctxWithCancel:background"
 			}
+			if s == "context.WithCancel(context.WithoutCancel(ctx))" {
+				// the task's context without its cancellation: values (the enclosing execution) are kept
+				return "ctxWithCancel:withoutCancel"
+			}
 			return "ctxWithCancel:other"
 		case s == "cancel()":
 			return "cancel()"
@@ -83,6 +87,12 @@ func genPhases() {
 			return "hashMutex." + s[len("e.executionHashesMutex."):len(s)-2]
 		case strings.HasPrefix(s, "e.GetHash("):
 			return "getHash"
+		case strings.HasPrefix(s, "context.WithValue("):
+			return "ctxWithValue"
+		case strings.HasPrefix(s, "ctx.Value("):
+			return "ctxValue"
+		case strings.HasSuffix(s, ".waitsFor()"):
+			return "waitsFor"
 		case s == "execute()":
 			return "execute"
 		case strings.HasPrefix(s, "atomic.AddInt32("):
@@ -164,6 +174,9 @@ func genPhases() {
 					if id, ok := f.X.(*ast.Ident); ok && origin[id.Name] == "g" {
 						return "g." + f.Sel.Name + "()"
 					}
+					if f.Sel.Name == "waitsFor" {
+						return "_.waitsFor()"
+					}
 					if id, ok := f.X.(*ast.Ident); ok && id.Name == "verifhook" && f.Sel.Name == "Ev" && len(c.Args) >= 2 {
 						return "verifhook.Ev(ctx, " + src(c.Args[1]) + ")"
 					}
@@ -203,7 +216,17 @@ func genPhases() {
 								seq = append(seq, "wrap:TaskRunError")
 							}
 						case *ast.Ident:
-							seq = append(seq, "mark:local")
+							// (an empty literal `T{}` is a context key, not a value that is built here)
+							if len(x.Elts) > 0 {
+								seq = append(seq, "mark:local")
+							}
+						}
+					case *ast.AssignStmt:
+						// `p.waits = append(p.waits, …)`: an edge of the wait-for relation between executions
+						for _, lh := range x.Lhs {
+							if se, ok := lh.(*ast.SelectorExpr); ok && se.Sel.Name == "waits" {
+								seq = append(seq, "addWait")
+							}
 						}
 					case *ast.CallExpr:
 						if k := interesting(norm(x)); k != "" {
